@@ -14,6 +14,7 @@ def install(w):
     from spacepackets.countdown import Countdown
     from spacepackets.util import UnsignedByteField
     from spacepackets.seqcount import ProvidesSeqCount
+    from spacepackets.cfdp.tlv import MessageToUserTlv
 
     import cfdppy.handler.dest as D
     import cfdppy.handler.source as S
@@ -83,7 +84,7 @@ def install(w):
         "destination_id": UBF, "source_file": T.Opt(T.Path), "dest_file": T.Opt(T.Path),
         "trans_mode": T.Opt(T.Enum(TransmissionMode)), "closure_requested": T.Opt(T.Bool),
         "seg_ctrl": T.Opt(T.Enum(SegmentationControl)), "fault_handler_overrides": T.Opt(T.Opaque),
-        "flow_label_tlv": T.Opt(T.Opaque), "msgs_to_user": T.Opt(T.Opaque), "fs_requests": T.Opt(T.Opaque)}
+        "flow_label_tlv": T.Opt(T.Opaque), "msgs_to_user": T.Opt(T.ObjList(MessageToUserTlv)), "fs_requests": T.Opt(T.Opaque)}
     sh[S.SourceHandler] = {
         "states": T.Obj(S.SourceStateWrapper), "cfg": T.Obj(LocalEntityCfg), "user": T.Obj(CfdpUserBase),
         "remote_cfg_table": T.Obj(RemoteEntityCfgTable), "seq_num_provider": T.Obj(ProvidesSeqCount),
